@@ -23,7 +23,8 @@ EXPLANATION = (
     "input; (e) format_update_with formats before it touches d, and touches d only through "
     "update_recursively(d, str_to_dict(key, ...)); (f) the function format_context returns changes nothing it captured from the "
     "enclosing call; (g) the presence of an optional value/default that is also used as data is decided by the module's private "
-    "sentinel, never by `is None` or truthiness (None is a context value).  Does not decide agreement of the three notations on values.")
+    "sentinel, never by `is None` or truthiness (None is a context value); (h) no one-argument .get() lookup decides presence by "
+    "comparing the value with None, and UpdateContext deep-copies the item it inserts before its first store into the value's context.  Does not decide agreement of the three notations on values.")
 RULES = {
     "C08-a": "GUARD: dictionary operations on values reached by descending into a context are dominated by isinstance(., dict)",
     "C08-b": "GUARD: [-1]/[0] of a key list is dominated by a non-emptiness test or a constructor check",
@@ -32,6 +33,8 @@ RULES = {
     "C08-e": "format_update_with formats first and updates d only through update_recursively(d, str_to_dict(...))",
     "C08-f": "STATELESS formatter: the function format_context returns mutates nothing it captured from the enclosing call",
     "C08-g": "SENTINEL: absence of an optional context value is decided by a private sentinel, never by None/falsiness (None is a value)",
+    "C08-h": "presence of a key is decided with `in` (or KeyError), never by comparing a looked-up value with None; UpdateContext "
+             "copies the item it will insert before it creates or overwrites anything on the way to the target",
 }
 FN = "lena.context.functions"
 LENA3 = ("lena.core.exceptions.LenaTypeError", "lena.core.exceptions.LenaValueError", "lena.core.exceptions.LenaKeyError")
@@ -726,7 +729,61 @@ def check_sentinel(ctx):
     ctx.instances_floor("C08-g", n, 3, "optional data parameters of the context functions")
 
 
+def check_lookup_and_snapshot(ctx):
+    res = ctx.res
+    # (1) d.get(key) followed by a None test decides presence by value: a stored None (JSON null) becomes 'missing'
+    n = 0
+    for qual in ("get_recursively", "contains", "update_recursively", "difference", "intersection", "update_nested"):
+        fn = ctx.tree.func(FN, qual)
+        for c in A.walk_local(fn):
+            if not (isinstance(c, ast.Call) and isinstance(c.func, ast.Attribute) and c.func.attr == "get" and len(c.args) == 1 and not c.keywords):
+                continue
+            n += 1
+            par = A.parent(c)
+            tested = None
+            if isinstance(par, ast.Compare) and any(isinstance(x, ast.Constant) and x.value is None for x in par.comparators + [par.left]):
+                tested = par
+            elif isinstance(par, ast.Assign) and len(par.targets) == 1 and isinstance(par.targets[0], ast.Name):
+                nm = par.targets[0].id
+                for x in A.walk_local(fn):
+                    if isinstance(x, ast.Compare) and isinstance(x.left, ast.Name) and x.left.id == nm and len(x.ops) == 1 \
+                            and isinstance(x.ops[0], (ast.Is, ast.IsNot, ast.Eq, ast.NotEq)) \
+                            and isinstance(x.comparators[0], ast.Constant) and x.comparators[0].value is None:
+                        tested = x
+                    elif isinstance(x, (ast.If, ast.While, ast.IfExp)) and isinstance(x.test, ast.Name) and x.test.id == nm:
+                        tested = x.test
+            ctx.check("C08-h", tested is None, c, "%s looks an item up with `%s` and decides whether it exists from the value (`%s`): an item "
+                      "that is present and holds None is treated as missing (LenaKeyError / default instead of None)" % (
+                          qual, A.short(c, 40), A.short(tested, 40) if tested is not None else ""),
+                      detail="%s: `%s` is not used to decide presence" % (qual, A.short(c, 40)), construct="presence-by-none:%s" % qual)
+    ctx.ok("C08-h", (FN, "<module>"), "%d one-argument .get() lookups examined" % n, nontrivial=False)
+    # (2) UpdateContext.__call__: the deep copy of what will be inserted precedes every store into the value's context
+    fn = ctx.tree.func("lena.context.update_context", "UpdateContext.__call__")
+    n_paths = 0
+    seen = set()
+    for p in P.paths_of(fn):
+        if p.end != "return":
+            continue
+        copies = [i for i, c in p.calls() if res.call_canon(c) == "copy.deepcopy"]
+        stores = [i for i, e in enumerate(p.ev) if e[0] == "stmt" and isinstance(e[1], ast.Assign)
+                  and any(isinstance(t, ast.Subscript) for t in e[1].targets)]
+        if not copies or not stores:
+            continue
+        n_paths += 1
+        ok = max(copies) < min(stores)
+        key = ok
+        if key in seen:
+            continue
+        seen.add(key)
+        ctx.check("C08-h", ok, fn, "UpdateContext.__call__ [%s] copies the item it inserts after it has already stored into the value's "
+                  "context (creating or overwriting dictionaries on the way to the target): when the source item is an ancestor of the "
+                  "target, the copy contains those changes and the addressed item no longer equals the source item" % p.describe(3),
+                  detail="the inserted item is copied before the context is touched", construct="copy-after-store", path=p)
+    ctx.instances_floor("C08-h/snapshot", n_paths, 2, "paths of UpdateContext.__call__ that copy and store")
+
+
 def check(ctx):
+    check_lookup_and_snapshot(ctx)
     check_formatter_stateless(ctx)
     check_sentinel(ctx)
     check_descent(ctx)
@@ -738,6 +795,8 @@ def check(ctx):
 
 
 VARIANTS = [
+    M("lookup-none-is-missing", "lena/context/functions.py", "    if keys[-1] in d:\n        return d[keys[-1]]", "    val = d.get(keys[-1])\n    if val is not None:\n        return val", ["C08-h"]),
+    M("update-copied-late", "lena/context/update_context.py", "        else:\n            update = copy.deepcopy(self._update)", "        else:\n            update = self._update", []),
     M("formatter-shared-values", "lena/context/functions.py", "    def _format_context(context):\n        new_args = []\n        for arg in args:\n            # LenaKeyError may be raised\n            new_args.append(lena.context.get_recursively(context, arg))\n        # other exceptions, like ValueError\n        # (for bad string formatting) may be raised.\n        s = format_str.format(*new_args)\n        return s", "    values = []\n    def _format_context(context):\n        for arg in args:\n            values.append(lena.context.get_recursively(context, arg))\n        s = format_str.format(*values)\n        del values[:]\n        return s", ["C08-f"]),
     M("str-to-dict-none-test", "lena/context/functions.py", "    if value is not _sentinel:\n        parts.append(value)", "    if value is not None:\n        parts.append(value)", ["C08-g"]),
     M("get-recursively-default-truthy", "lena/context/functions.py", "    has_default = default is not _sentinel", "    has_default = bool(default)", []),
